@@ -81,6 +81,10 @@ class Key(object):
             not self._generator.contains_point(*self._public_pair)
         ):
             raise InvalidPublicPairError()
+        p = self._generator.p()
+        if not (0 <= self._public_pair[0] < p and 0 <= self._public_pair[1] < p):
+            # coordinates are field elements; (x + p, y) would be a second name for the same point
+            raise InvalidPublicPairError()
 
     @classmethod
     def from_sec(class_: type[Key], sec: bytes) -> Key:
